@@ -18,7 +18,7 @@ func c05NumCases(env *core.Env) int {
 	if env.Thorough() {
 		return 9000
 	}
-	return 450
+	return 1500
 }
 
 type c05Target struct {
